@@ -16,7 +16,8 @@
 
    The signalling table (required state / target state per call and description type),
    `validate_sdp_type`, the enums and the three order-of-effects facts
-   (`set_local_check_first`, `set_remote_next_mid_after_check`, `set_remote_fp_check_early`)
+   (`set_local_check_first`, `set_remote_next_mid_after_check`, `set_remote_fp_check_early`) and
+   the presence of the restore-on-error guards (`*_restores_on_error`)
    are GENERATED from the source (Gen/Signaling.v); the step functions below branch on them, so
    the model follows whichever order the code has and the theorems are re-checked against it.
 
@@ -292,7 +293,18 @@ Definition check_rule (rule : option (SignalingState * option SignalingState)) (
 
 Definition not_wrtc (m : TransportMode) : bool := negb (TransportMode_eqb m WebRtc).
 
-Definition create_offer (m : TransportMode) (s : st) (envf : bool) : st * result :=
+(* restore-on-error guard (signaling_snapshot / restore_signaling, commit of the C09 extension round):
+   when the guarded work returns Err, the signaling state (unless the connection was closed in
+   the meantime), the stored remote description, next_mid, the cached fingerprint, the
+   transceiver list and every transceiver's mid / direction / payload map / extmap are put back.
+   The stored local description and the existence of a DTLS transport are not touched. *)
+Definition restore (s s' : st) : st :=
+  mkSt (if SignalingState_eqb (sig s') Closed then sig s' else sig s)
+       (local s') (remote s) (next_mid s) (txs s) (dtls_started s') (stored_fp s).
+Definition guard (on : bool) (s : st) (p : st * result) : st * result :=
+  if on && is_err (snd p) then (restore s (fst p), snd p) else p.
+
+Definition create_offer_raw (m : TransportMode) (s : st) (envf : bool) : st * result :=
   if negb (SignalingState_eqb (sig s) create_offer_required) then (s, Err EInvalidState)
   else match txs s with
        | [] => (s, Err EInvalidState)
@@ -301,7 +313,7 @@ Definition create_offer (m : TransportMode) (s : st) (envf : bool) : st * result
               if not_wrtc m && envf then (s1, Err EInternal) else (s1, Ok)
        end.
 
-Definition create_answer (m : TransportMode) (s : st) (envf : bool) : st * result :=
+Definition create_answer_raw (m : TransportMode) (s : st) (envf : bool) : st * result :=
   if negb (SignalingState_eqb (sig s) create_answer_required) then (s, Err EInvalidState)
   else match txs s with
        | [] => (s, Err EInvalidState)
@@ -319,6 +331,13 @@ Definition create_answer (m : TransportMode) (s : st) (envf : bool) : st * resul
                end
            end
        end.
+
+Definition create_offer_gen (g : bool) (m : TransportMode) (s : st) (envf : bool) : st * result :=
+  guard g s (create_offer_raw m s envf).
+Definition create_offer := create_offer_gen create_offer_restores_on_error.
+Definition create_answer_gen (g : bool) (m : TransportMode) (s : st) (envf : bool) : st * result :=
+  guard g s (create_answer_raw m s envf).
+Definition create_answer := create_answer_gen create_answer_restores_on_error.
 
 Definition local_mutate (d : desc) (s : st) : st :=
   match d_ty d with
@@ -391,7 +410,7 @@ Definition remote_apply (m : TransportMode) (s4 : st) (d : desc) (fp : option Z)
       (* RTP: configure_rtp_media_transports_from_remote *)
       if TransportMode_eqb m Rtp && envf then (s7, Err EInternal) else (s7, Ok).
 
-Definition set_remote_gen (fp_early mid_after : bool) (m : TransportMode) (s : st) (d : desc) (envf : bool) : st * result :=
+Definition set_remote_raw (fp_early mid_after : bool) (m : TransportMode) (s : st) (d : desc) (envf : bool) : st * result :=
   if negb (validate_sdp_type_ok (d_ty d)) then (s, Err ENotImplemented)
   else
     match remote_fp m d with
@@ -416,7 +435,10 @@ Definition set_remote_gen (fp_early mid_after : bool) (m : TransportMode) (s : s
               end
           end
     end.
-Definition set_remote := set_remote_gen set_remote_fp_check_early set_remote_next_mid_after_check.
+Definition set_remote_gen (g fp_early mid_after : bool) (m : TransportMode) (s : st) (d : desc) (envf : bool) : st * result :=
+  guard g s (set_remote_raw fp_early mid_after m s d envf).
+Definition set_remote :=
+  set_remote_gen set_remote_restores_on_error set_remote_fp_check_early set_remote_next_mid_after_check.
 
 Definition step (m : TransportMode) (s : st) (c : call) : st * result :=
   match c with
